@@ -76,7 +76,21 @@ def gen_table(rng, depth, allow_bad):
     return {"t": "Table", "c": [[], [], [], thead, tbody]}
 
 
+POOL = []          # container blocks generated so far in this process: re-used verbatim at other depths
+
+
 def gen_block(rng, depth=0, allow_bad=True):
+    if POOL and rng.random() < 0.12:
+        return json.loads(json.dumps(rng.choice(POOL[-40:])))
+    b = _gen_block(rng, depth, allow_bad)
+    if b["t"] in ("BulletList", "OrderedList", "BlockQuote", "Div", "Table") and len(json.dumps(b)) < 1500:
+        POOL.append(b)
+        if len(POOL) > 400:
+            del POOL[:200]
+    return b
+
+
+def _gen_block(rng, depth=0, allow_bad=True):
     r = rng.random()
     if depth > 2 or r < 0.35:
         return {"t": rng.choice(["Para", "Plain"]), "c": gen_inlines(rng, depth, allow_bad)}
@@ -100,11 +114,15 @@ def gen_block(rng, depth=0, allow_bad=True):
     return {"t": "Para", "c": [{"t": "Str", "c": "z"}]}
 
 
-def gen_header(rng, allow_bad=False):
+def gen_header(rng, allow_bad=False, small=False):
+    if small:
+        # tiny alphabet: titles that are slash-joins of other titles, few levels -> paths collide as strings
+        return {"t": "Header", "c": [rng.choice([1, 1, 2, 2, 3]), ["h", [], []],
+                                     [{"t": "Str", "c": rng.choice(["A", "B", "A/B", "B/A", "A/B/A"])}]]}
     lvl = rng.choice([1, 1, 2, 2, 3, 3, 4, 5, 6])
     r = rng.random()
     if r < 0.6:
-        inl = [{"t": "Str", "c": rng.choice(["A", "B", "C", "In/Out", "a\\", "x/y/z", "é", "T"])}]
+        inl = [{"t": "Str", "c": rng.choice(["A", "B", "C", "A/B", "B/C", "A/B/C", "A", "B", "In/Out", "a\\", "é", "T"])}]
     else:
         inl = gen_inlines(rng, 1, allow_bad)
     return {"t": "Header", "c": [lvl, ["h", [], []], inl]}
@@ -113,9 +131,10 @@ def gen_header(rng, allow_bad=False):
 def gen_doc(rng, allow_bad=False, start_with_header=True):
     n = rng.randint(1, 12)
     blocks = []
+    small = rng.random() < 0.3
     for i in range(n):
         if (i == 0 and start_with_header) or rng.random() < 0.4:
-            blocks.append(gen_header(rng, allow_bad))
+            blocks.append(gen_header(rng, allow_bad, small))
         else:
             blocks.append(gen_block(rng, 0, allow_bad))
     return blocks
